@@ -352,10 +352,21 @@ def _gate_job(job):
     spa = rig.spa
     if active:
         # the configuration clients use while their UI is open: ping every 2 s, timeout 4 s, not-responding after 10 s
+        # (the facade selects it while a pump/blower/light is on: the spa reports pump 1 running)
         rig.loop.run_for(1.0)
-        with rig.loop.running():
-            gconfig.set_config_mode(True)
+        from ..refmodels.bitfield import Field
+        from ..peers import frame
+        a = spa.accessors.get("P1")
+        if a is None:
+            raise core.HarnessError("C06 gates: default snapshot has no P1")
+        f = Field.of(a)
+        nb = f.put_raw(rig.peer.block, len(a.items) - 1 if a.items else 1)
+        rig.peer.set_block(nb)
+        rig.net.inject(spa._transport, frame(SPA_ID, rig.man._client_id,
+                                             b"STATP\x01" + f.pos.to_bytes(2, "big") + nb[f.pos:f.pos + 2]), SPA_ADDR)
         rig.loop.run_for(6.0)
+        if gconfig.GeckoConfig.PING_FREQUENCY_IN_SECONDS >= 60:
+            raise core.HarnessError("C06 gates: the stack did not switch to the active configuration")
     # run to just after a successful ping, then the spa goes dark
     n_ping = sum(1 for e in rig.man.events if e[1].name == "RUNNING_PING_RECEIVED")
     rig.loop.run_for(200.0, lambda: sum(1 for e in rig.man.events if e[1].name == "RUNNING_PING_RECEIVED") > n_ping)
